@@ -108,7 +108,7 @@ func show(v Val) string {
 
 // replay executes the behaviours; after a disagreement the rest of that behaviour is skipped
 // (the engine's state has left the specification's).
-func replay(in string, rep *vio.Report) {
+func replay(in string, rep *vio.Report, maxMM int) {
 	descs := map[string]Desc{}
 	newWorld()
 	for _, d := range allDescs() {
@@ -246,9 +246,9 @@ func replay(in string, rep *vio.Report) {
 	rep.Extra["resynchronisations"] = resyncs
 	rep.Extra["steps_skipped_after_divergence"] = skipped
 	rep.Extra["by_action"] = byAct
-	if len(rep.Mismatches) > 60 {
+	if len(rep.Mismatches) > maxMM {
 		rep.Extra["mismatches_total"] = len(rep.Mismatches)
-		rep.Mismatches = rep.Mismatches[:60]
+		rep.Mismatches = rep.Mismatches[:maxMM]
 	}
 	_ = strings.ToLower
 }
